@@ -582,7 +582,7 @@ fn run_program(cfg: &Cfg, index: u64, stats: &mut Stats) {
     if monitor(stats, "programs", index, &sources, exe, tags) && program.features.len() >= 5 {
         stats.nontrivial(sources.root_text().as_bytes());
     }
-    if index == 0 {
+    if stats.samples.is_empty() {
         stats.sample(json!({"lowered_program_excerpt": sources.root_text().chars().rev().take(500).collect::<String>().chars().rev().collect::<String>()}));
     }
 }
